@@ -47,8 +47,9 @@ func runDescribe(e *Env) {
 		tlate = 200
 	}
 	killRx := e.Choose("cfg.killrx", 6) == 0
+	reqFails := e.Choose("cfg.reqfails", 10) == 0 // the request cannot be written: the call fails, and still cleans up
 	sticky := []int{600, 0, 850}[e.Choose("cfg.sticky", 3)]
-	e.Cfg("discover=%v timeout=%v responders=%d tlate=%d killrx=%v sticky=%d", discover, timeout, nresp, tlate, killRx, sticky)
+	e.Cfg("discover=%v timeout=%v responders=%d tlate=%d killrx=%v sticky=%d reqfails=%v", discover, timeout, nresp, tlate, killRx, sticky, reqFails)
 	s.SetConfig(func(sc *simrt.Config) {
 		sc.StickyPermille = sticky
 		sc.LatePermille = tlate
@@ -58,7 +59,11 @@ func runDescribe(e *Env) {
 	})
 	for _, a := range []string{gwIP, clientIP, peerIP, "10.0.1.1"} {
 		for _, b := range []string{gwIP, clientIP, groupIP} {
-			e.F.SetLink(a, b, simnet.Link{DelayMin: 100 * time.Microsecond, DelayMax: 100 * time.Microsecond})
+			l := simnet.Link{DelayMin: 100 * time.Microsecond, DelayMax: 100 * time.Microsecond}
+			if reqFails && a == clientIP {
+				l.WriteErrPermille = 1000
+			}
+			e.F.SetLink(a, b, l)
 		}
 	}
 	group := &net.UDPAddr{IP: net.ParseIP(groupIP).To4(), Port: gwPort}
@@ -73,6 +78,7 @@ func runDescribe(e *Env) {
 	var reqFrom *net.UDPAddr
 	// responses that are well formed by construction, whatever the library's decoder makes of them (raw bytes -> friendly name)
 	wellFormed := map[string]string{}
+	illFormed := map[string]bool{} // frames that are malformed by construction, whatever the decoder makes of them
 	var reqs [][]byte
 	s.Spawn("server-rx", func() {
 		buf := make([]byte, 2048)
@@ -120,6 +126,9 @@ func runDescribe(e *Env) {
 			case 4:
 				devName = ""
 			}
+			if e.Choose("wl.namelatin1", 4) == 0 && len(devName) <= 24 {
+				devName = "K\xfcche" + devName // ISO 8859-1, as the field is specified: the decoder transcodes it
+			}
 			good := mkFrame(svcDescrRes, append(append(mkDeviceDIB(devName), mkFamDIB(1+i%4)...), extra...))
 			other := mkFrame(svcDescrRes, append(append(mkDeviceDIB(fmt.Sprintf("x%d", i)), mkFamDIB(2)...), bytesOf(0x55, len(extra))...))
 			if discover {
@@ -128,11 +137,23 @@ func runDescribe(e *Env) {
 			wellFormed[string(good)], wellFormed[string(other)] = devName, fmt.Sprintf("x%d", i)
 			send := func(b []byte) { srv.WriteToUDP(b, to) }
 			noise := func() {
-				switch e.Choose("wl.noise", 6) {
+				switch e.Choose("wl.noise", 7) {
+				case 6: // a response that breaks off one octet after a block boundary: not a response
+					body := append(append(mkDeviceDIB("surplus"), mkFamDIB(1)...), 0x08)
+					// (description responses only: the library reads a search response leniently and
+					// takes one with octets behind its last block for what it is - the statement does
+					// not say otherwise)
+					bad := mkFrame(svcDescrRes, body)
+					if !discover {
+						illFormed[string(bad)] = true
+					}
+					send(bad)
 				case 0:
 					send(mkConnStateRes(1, 0))
 				case 1:
-					send(mkFrame(svcDescrRes, []byte{0x36, 1, 2, 3})) // truncated description
+					bad := mkFrame(svcDescrRes, []byte{0x36, 1, 2, 3}) // truncated description
+					illFormed[string(bad)] = true
+					send(bad)
 				case 2:
 					send([]byte{6, 0x10, 2})
 				case 3:
@@ -237,6 +258,30 @@ func runDescribe(e *Env) {
 		e.Violate("C20", "call-never-returned", "%s(timeout %v) had not returned %v after it was called", name, timeout, s.Now()-start.T)
 		return
 	}
+	releaseChecks := func() {
+		lblr := "udp:" + clientIP
+		if discover {
+			lblr = routerLbl
+		}
+		for _, l := range e.F.OpenSockets() {
+			if strings.HasPrefix(l, lblr) {
+				e.Violate("C20", "socket-not-released", "%s returned but its socket %s is still open", name, l)
+			}
+		}
+		for _, t := range e.S.LiveLibTasks() {
+			e.Violate("C20", "goroutine-leak:"+siteKey(t.SpawnSite), "library goroutine spawned at %s still alive (at %s) after %s returned", t.SpawnSite, t.Site, name)
+		}
+	}
+	if reqFails {
+		// nothing could be sent: the call reports it (or finds nothing); what it must not do is
+		// keep its socket or its receiver
+		if err == nil && (resD != nil || len(resS) > 0) {
+			e.Violate("C20", "result-without-request", "%s returned a result although its request could not be written", name)
+		}
+		e.Probe("request-write-failed")
+		releaseChecks()
+		return
+	}
 	if err != nil {
 		e.Violate("C20", "call-error", "%s returned an error: %v", name, err)
 		return
@@ -295,6 +340,16 @@ func runDescribe(e *Env) {
 	if discover {
 		var must, may []*knxnet.SearchRes
 		for _, r := range reads {
+			if illFormed[string(r.raw)] {
+				if svc, _, derr, p := refDecode(r.raw); derr == nil && p == "" {
+					for _, got := range resS {
+						if reflect.DeepEqual(svc, got) {
+							e.Violate("C20", "returned-malformed-frame", "Discover returned %s, decoded from a frame that is malformed (%d octets %x)", dump(got), len(r.raw), clipBytes(r.raw))
+						}
+					}
+				}
+				continue
+			}
 			svc, _, derr, p := refDecode(r.raw)
 			if derr != nil || p != "" {
 				if nm, ok := wellFormed[string(r.raw)]; ok && parseFrame(r.raw).Svc == svcSearchRes {
@@ -341,6 +396,12 @@ func runDescribe(e *Env) {
 		var first *knxnet.DescriptionRes
 		var firstAt Stamp
 		for _, r := range reads {
+			if illFormed[string(r.raw)] {
+				if svc, _, derr, p := refDecode(r.raw); derr == nil && p == "" && resD != nil && reflect.DeepEqual(svc, resD) {
+					e.Violate("C20", "returned-malformed-frame", "DescribeTunnel returned %s, decoded from a frame that is malformed (%d octets %x)", dump(resD), len(r.raw), clipBytes(r.raw))
+				}
+				continue
+			}
 			svc, _, derr, p := refDecode(r.raw)
 			if derr != nil || p != "" {
 				if nm, ok := wellFormed[string(r.raw)]; ok && parseFrame(r.raw).Svc == svcDescrRes {
